@@ -180,6 +180,15 @@ func (p *PX) term(v ssa.Value, fr *pxFrame, st *pxState) *Term {
 			((x.Op == token.SUB && a.Op == token.ADD) || (x.Op == token.ADD && a.Op == token.SUB)) && types.Identical(a.T, v.Type()) {
 			return a.A
 		}
+		// an interface made from a concrete value is never the nil interface (Go semantics)
+		if x.Op == token.EQL || x.Op == token.NEQ {
+			for _, pr := range [][2]*Term{{a, b}, {b, a}} {
+				if _, boxed := pr[0].V.(*ssa.MakeInterface); boxed && pr[0].K == TLeaf && strings.HasPrefix(pr[1].key, "nil:") {
+					r := x.Op == token.NEQ
+					return &Term{K: TBoolConst, Bool: r, T: v.Type(), key: fmt.Sprintf("%v", r)}
+				}
+			}
+		}
 		t := &Term{K: TBin, Op: x.Op, A: a, B: b, T: v.Type(), key: "(" + a.key + " " + x.Op.String() + " " + b.key + ")"}
 		if a.K == TConst && b.K == TConst {
 			// fold: both operands are constants on this path
@@ -593,7 +602,8 @@ func (p *PX) instrs(fr *pxFrame, b *ssa.BasicBlock, from int, st *pxState, k pxC
 			}
 		case *ssa.Call:
 			p.byteCall(x, fr, st)
-			sc := x.Call.StaticCallee()
+			// a method expression `(*T).M(recv, args…)` calls M through a thunk with M's own operands
+			sc := p.w.unthunk(x.Call.StaticCallee())
 			if sc == nil || !stepIn {
 				if sc != nil {
 					p.callEffects(sc, st)
